@@ -393,7 +393,7 @@ PROPS = {
                   lambda prog, tier: tokens.run_lp(prog),
                   lambda prog, tier: tokens.run_sections(prog, "mpq_ILLwrite_lp", {"End"}, print_funcs={"mpq_ILLprint_report": 1}, token_ok=lambda t: t[0].isupper()),
                   lambda prog, tier: idxclass.run(prog, scope_units=("lp_mpq.c", "write_lp_mpq.c", "rawlp_mpq.c")),
-                  lambda prog, tier: sentinel.run(prog), lambda prog, tier: rescan.run(prog), lambda prog, tier: decacc.run(prog), lambda prog, tier: kwtable.run(prog), lambda prog, tier: hitused.run(prog), lambda prog, tier: defaults.run(prog),
+                  lambda prog, tier: sentinel.run(prog), lambda prog, tier: rescan.run(prog), lambda prog, tier: decacc.run(prog), lambda prog, tier: kwtable.run(prog), lambda prog, tier: hitused.run(prog), lambda prog, tier: defaults.run(prog), lambda prog, tier: defaults.run_bndflag(prog),
                   lambda prog, tier: fullscan.run(prog, ["mpq_ILLwrite_lp"], ("lp_mpq.c", "write_lp_mpq.c"), floor=4),
                   lambda prog, tier: trunc.run(prog)],
         "technique": "lossy-conversion sink census over the writer and reader call-graph closures; writer/reader agreement of type-resolved "
@@ -416,7 +416,7 @@ PROPS = {
                   lambda prog, tier: tokens.run_mps(prog),
                   lambda prog, tier: tokens.run_sections(prog, "mpq_ILLwrite_mps", {"ENDATA"}, print_funcs={"mpq_ILLprint_report": 1}, token_ok=lambda t: t.isupper() and len(t) >= 2),
                   lambda prog, tier: idxclass.run(prog, scope_units=("mps_mpq.c", "rawlp_mpq.c")),
-                  lambda prog, tier: sentinel.run(prog), lambda prog, tier: appendinit.run(prog), lambda prog, tier: appendinit.run_repack(prog), lambda prog, tier: appendinit.run_remap(prog, shared_eff(prog)), lambda prog, tier: fmt.run_args(prog), lambda prog, tier: rescan.run(prog), lambda prog, tier: defaults.run(prog),
+                  lambda prog, tier: sentinel.run(prog), lambda prog, tier: appendinit.run(prog), lambda prog, tier: appendinit.run_repack(prog), lambda prog, tier: appendinit.run_remap(prog, shared_eff(prog)), lambda prog, tier: fmt.run_args(prog), lambda prog, tier: rescan.run(prog), lambda prog, tier: defaults.run(prog), lambda prog, tier: defaults.run_bndflag(prog),
                   lambda prog, tier: fullscan.run(prog, ["mpq_ILLwrite_mps"], ("mps_mpq.c",), floor=6),
                   lambda prog, tier: fullscan.run_rowfilter(prog), lambda prog, tier: fullscan.run_rangepair(prog), lambda prog, tier: trunc.run(prog)],
         "technique": "lossy-conversion sink census over writer/reader closures; table agreement (section names, bound mnemonics, row-type "
@@ -435,7 +435,7 @@ PROPS = {
         "rules": [lambda prog, tier: exact.run(prog, {"READ": {"roots": ["mpq_QSread_prob", "mpq_QSget_prob"], "closure": True, "word": True}},
                                                floors=[("exact literal parser reachable from QSread_prob", ["mpq_QSread_prob"], "mpq_EGlpNumReadStrXc", 1),
                                                        ("exact literal parser reachable from ILLget_value", ["mpq_ILLget_value"], "mpq_EGlpNumReadStrXc", 1)]),
-                  lambda prog, tier: rescan.run(prog), lambda prog, tier: decacc.run(prog), lambda prog, tier: defaults.run(prog), lambda prog, tier: strscan.run(prog), lambda prog, tier: strscan.run_advance(prog),
+                  lambda prog, tier: rescan.run(prog), lambda prog, tier: decacc.run(prog), lambda prog, tier: defaults.run(prog), lambda prog, tier: defaults.run_bndflag(prog), lambda prog, tier: strscan.run(prog), lambda prog, tier: strscan.run_advance(prog),
                   lambda prog, tier: rawidx.run(prog), lambda prog, tier: digitseen.run(prog)],
         "technique": "lossy-conversion sink census over the reader call-graph closure of the rational instantiation (type-resolved, after "
                      "preprocessing: the #ifdef between the exact and the double literal reader is resolved as the build resolves it)",
@@ -727,7 +727,7 @@ _ADD = {
                            "of the shrunk space (the SOS sets the writer prints hold structural column numbers). (R-FMTARGS) every conversion of a literal "
                            "format handed to a printf-like routine (the writers' ILLprint_report among them) is given an argument of its category - the "
                            "exporter records the promoted type of every variadic argument, so a %g given the rational type is seen in the rational "
-                           "instantiation. (R-RANGEPAIR) the emission of a RANGES record is governed by a test of the row's sense, not by the range value alone."},
+                           "instantiation. (R-RANGEPAIR) the emission of a RANGES record is governed by a test of the row's sense, not by the range value alone. (R-BNDFLAG) a function that stores a file-given bound into the raw LP also sets the matching explicitly-given flag."},
     "C10": {"technique": "; all-paths constant propagation through the '/' case of the exact literal scanner; flag-state dataflow (set-of-tuples) for "
                          "stores into the raw LP's bounds; machine-word sink census with digit-bound discharge",
             "explanation": " (R-RESCAN) the denominator of p/q is scanned from the same state as the numerator; (R-EXPLICITBND) a bound given in the "
@@ -737,7 +737,7 @@ _ADD = {
                            "taken from the wrong numbering is the neighbour's as soon as an unused column was dropped).",
             "level_text": " Since session 3 three clauses of the scanner / default-bound semantics are decided structurally (state reset at '/', "
                           "explicit-versus-default flags, no machine-word accumulation). (R-DIGITSEEN) the literal scanners (found by shape: a switch over the ten digit characters in a function returning a count) hand back a "
-                           "non-zero count only on paths that executed a digit case."},
+                           "non-zero count only on paths that executed a digit case. (R-BNDFLAG) a function that stores a file-given bound into the raw LP also sets the matching explicitly-given flag."},
     "C11": {"explanation": " (R-STRSCAN) no scan of a line runs past its terminator: a strchr set-membership test of a variable character also "
                            "tests it against NUL, and every loop that walks a char pointer has an exit test that NUL fails (value enumeration of the "
                            "condition for NUL). (R-FMT) no text of the input (a name, a line) is used as a format string on a reader path; "
